@@ -24,7 +24,7 @@ COMPONENTS = {"real": "whole IPhreeqc library built from /repo (C++ class, C bin
 ASSUMPTIONS = ["Fortran glue functions are called from C with C strings; the F90 module itself is not compiled",
                "the reference model encodes IPhreeqc.h/IPhreeqc.hpp documentation and the defaults of the constructor"]
 REACH_PROBES = ["dead_id_calls", "f_truncations", "concurrent_plans", "sweeps"]
-tiers = {"quick": dict(runs=1600, budget_s=100, workers=16), "thorough": dict(runs=12000, budget_s=1500, workers=16)}
+tiers = {"quick": dict(runs=1600, budget_s=100, workers=16), "thorough": dict(runs=41110, budget_s=1500, workers=16)}
 
 SW = ["DumpFileOn", "DumpStringOn", "ErrorFileOn", "ErrorOn", "ErrorStringOn", "LogFileOn", "LogStringOn", "OutputFileOn", "OutputStringOn"]
 SELSW = ["SelectedOutputFileOn", "SelectedOutputStringOn"]
@@ -65,7 +65,50 @@ class Inst:
         return ["cpp", "c", "f"] if self.kind == "cpp" else ["c", "f"]
 
 
+ALPHA = [
+    {"op": "create", "slot": 0, "kind": "cpp"}, {"op": "create", "slot": 1, "kind": "c"},
+    {"op": "destroy", "slot": 0, "how": "cpp"}, {"op": "destroy", "slot": 0, "how": "c"}, {"op": "destroy", "slot": 1, "how": "f"},
+    {"op": "setsw", "fn": "OutputFileOn", "v": 1, "slot": 0, "bind": "c"}, {"op": "setsw", "fn": "DumpStringOn", "v": 1, "slot": 1, "bind": "f"},
+    {"op": "setname", "fn": "LogFileName", "v": "x.log", "slot": 0, "bind": "f"}, {"op": "setcur", "v": 3, "slot": 1, "bind": "c"},
+    {"op": "setsw", "fn": "ErrorOn", "v": 0, "slot": 0, "bind": "f"},
+]
+EXH_LEN = 4
+EXH_TOTAL = sum(len(ALPHA) ** k for k in range(1, EXH_LEN + 1))
+
+
+def exhaustive_plan(index):
+    """the index-th operation sequence of length <= 4 over the reduced alphabet (bounded-exhaustive part of the thorough tier)"""
+    k = 1
+    while index >= len(ALPHA) ** k:
+        index -= len(ALPHA) ** k
+        k += 1
+    seq = []
+    for _ in range(k):
+        seq.append(dict(ALPHA[index % len(ALPHA)]))
+        index //= len(ALPHA)
+    hist, live, ever = [], {}, set()
+    for op in seq:
+        s = op["slot"]
+        if op["op"] == "create":
+            if live.get(s) or s in ever:
+                continue                   # a slot is created once; later letters use it alive or dead
+            live[s] = True
+            ever.add(s)
+            hist.append(op)
+        elif op["op"] == "destroy":
+            if live.get(s):
+                live[s] = False
+                hist.append(op)
+            elif s in ever:
+                hist.append({"op": "destroy_raw", "slot": s, "bind": "f" if op["how"] == "f" else "c", "dead": True})    # double destroy
+        elif s in ever:
+            hist.append(dict(op, dead=not live.get(s)) if not live.get(s) else op)
+    return {"prop": PROP, "clients": [hist or [dict(ALPHA[0])]], "fbuf": 24, "sweep_pct": 100, "concurrent": False, "preempt": 0, "sched_seed": 1, "exhaustive": True}
+
+
 def generate(rng, tier, index):
+    if tier == "thorough" and index < EXH_TOTAL:
+        return exhaustive_plan(index)
     concurrent = (index % 8 == 7)
     nclients = rng.range(2, 4) if concurrent else 1
     clients = []
@@ -592,6 +635,8 @@ def check_plan(ctx, plan):
         rep.count("hl_ops", len(h))
         if max_live >= 2 and dead_calls >= 1 and runs >= 1:
             rep.distinct.append(hashlib.sha1("|".join(kinds).encode()).hexdigest()[:12])
+    if plan.get("exhaustive"):
+        rep.count("exhaustive_sequences")
     rep.sample = {"concurrent": bool(conc), "fbuf": fbuf, "history_client0": plan["clients"][0][:12], "executor_ops": sum(len(c) for c in clients)}
     return rep
 
